@@ -40,7 +40,7 @@ def parts(tier):
         out.append(dict(part="num", cfg=cfg, shards=2 if q else 6))
         out.append(dict(part="prime", cfg=cfg, shards=2 if q else 4))
         out.append(dict(part="rec", cfg=cfg, shards=2 if q else 6))
-    out.append(dict(part="fatal", cfg="asan256", shards=2))
+    out.append(dict(part="fatal", cfg="asan256", shards=1))
     out.append(dict(part="fatal", cfg="asan256k", shards=1))
     return out
 
@@ -1247,10 +1247,8 @@ def run_prime(E):
         if tag == "tiny":
             cls = "tiny-prime" if truth else "tiny-composite"
         if fn == "bn_is_prime_solov":
-            # documented for a > 2; 1 and 2 never terminate (directed class of the fatal part); even a > 2 own class
-            if n < 3:
-                return
-            if n % 2 == 0:
+            # every integer is judged strictly (since 20ec48f: 0 for a <= 1 and even a, 1 for 2 and 3, no error raised)
+            if n > 2 and n % 2 == 0:
                 cls = "even"
             if n.bit_length() > sol_big:
                 return
@@ -1262,12 +1260,6 @@ def run_prime(E):
         R.bn_put(a, n)
         r = R.call(fn, a)
         E.unchanged([(a, n)], key)
-        if fn == "bn_is_prime_solov" and n % 2 == 0:
-            # an even number is not prime: the verdict must be 0; the test itself is only defined for odd moduli, an
-            # error on top of the verdict is recorded separately
-            ctx.check(r.i == 0, key + "|accepted-composite", {"ret": r.i})
-            ctx.check(not r.caught, key + "|error-raised", {"err": r.err})
-            return
         if not ctx.check(not r.caught, key + "|unexpected-error", {"err": r.err, "ret": r.i}):
             return
         if fn == "bn_is_prime_basic":
@@ -1415,12 +1407,13 @@ def run_prime(E):
 
     # every hostile composite and every listed prime goes through every test once (directed enumeration, split over shards)
     i = 0
-    for n, tag in [(p, "prime") for p in plist] + comps:
+    for n, tag in [(p, "prime") for p in plist] + comps + [(0, "tiny-composite"), (1, "tiny-composite"), (4, "tiny-composite"), (6, "tiny-composite"),
+                                                           (256, "tiny-composite"), (-7, "negative")]:
         for fn in ("bn_is_prime", "bn_is_prime_rabin", "bn_is_prime_solov", "bn_is_prime_basic"):
             i += 1
             if not ctx.mine(i):
                 continue
-            if fn == "bn_is_prime_solov" and (n < 3 or n.bit_length() > sol_big):
+            if fn == "bn_is_prime_solov" and n.bit_length() > sol_big:
                 continue
             if n.bit_length() > big:
                 continue
@@ -1435,7 +1428,7 @@ def run_prime(E):
                     return
                 if tag == "prime":
                     ctx.check(r.i == 1, key + "|rejected-prime", {"ret": r.i})
-                elif fn != "bn_is_prime_basic" or any(n % q == 0 for q in nt.SMALL_PRIMES if q <= table_max):
+                elif fn != "bn_is_prime_basic" or n in (0, 1) or (n > 1 and any(n % q == 0 for q in nt.SMALL_PRIMES if q <= table_max)):
                     ctx.check(r.i == 0, key + "|accepted-composite", {"ret": r.i})
             guard(ctx, one)
     ops = [is_prime] * 12 + [gen_prime] * 3 + [gen_factor] + [is_factor] * 2
@@ -2034,19 +2027,6 @@ def run_fatal(E):
             case("bn_mxp_crt|%s|mod-n^2|paillier" % R.target("bn_mxp"), ["64-bit primes"], paillier, budget=5)
         return
 
-    if ctx.shard == 0:
-        # documented for a > 2, but 1 and 2 are ordinary integers a caller may ask about: must terminate
-        def solov(n):
-            def body(key):
-                R.bn_put(a, n)
-                r = R.call("bn_is_prime_solov", a)
-                ctx.check(r.i == int(n == 2) and not r.caught, key + "|value", {"ret": r.i, "n": n})
-            return body
-        case("bn_is_prime_solov|n<3", [1], solov(1), budget=20)
-        case("bn_is_prime_solov|n<3", [2], solov(2), budget=20)
-        return
-
-    # ---- shard 1
     # "d ... can be NULL" (relic_bn.h) for every extended gcd
     def dnull(fn):
         def body(key):
